@@ -553,14 +553,15 @@ theorem cancelConn_get (h : H) (k : Key) :
 
 /-- **C10 (cancel)**: `CancelPairingWithSKI` with any spelling leaves the SKI untrusted with pairing state
     "none" and no attempt counter; a registered connection is told to abort, and unless its handshake has
-    thereby (or already) ended it is closed with 4452 — it cannot complete later. -/
+    thereby (or already) failed it is closed with 4452 — a running handshake cannot complete later and a
+    completed connection of the now untrusted SKI does not stay. -/
 theorem C10_cancel_effect (h : H) (s : Str) :
     ((step h (.cancel s)).1.get (normalize s)).trusted = false ∧
     ((step h (.cancel s)).1.get (normalize s)).counter = none ∧
     ((step h (.cancel s)).1.get (normalize s)).detail.1 = csNone ∧
     (∀ c, (h.get (normalize s)).conn = some c →
       Obs.abort c.id ∈ (step h (.cancel s)).2 ∧
-      (handshakeEnded (if c.st = 8 || c.st = 11 then 15 else c.st) = false →
+      (handshakeFailed (if c.st = 8 || c.st = 11 then 15 else c.st) = false →
         Obs.close c.id false 4452 ∈ (step h (.cancel s)).2)) := by
   simp only [step]
   have u := untrust_get (cancelConn ((h.touch (normalize s)).set (normalize s) { (h.touch (normalize s)).get (normalize s) with counter := none }) (normalize s)).1 (normalize s)
